@@ -395,7 +395,7 @@ def run(ctx):
                 try_format(ctx, deep, o, 'deep nesting')
     # integer-valued options given as other int-convertible values (validation accepts them, so the filters must cope): x statements that make
     # the filters read the option
-    INT_LIKE = ['3', ' 4 ', '20', 2.0, 3.7, True, False, '0', '1_0', b'2' if False else '07']
+    INT_LIKE = ['3', ' 4 ', '20', 2.0, 3.7, True, False, '0', '1_0', b'2' if False else '07', 10 ** 30]      # (no value between 2**31 and 2**63: char * n would really be allocated)
     LISTY = ["select a, b, c, d, e from t where x in (1, 2, 3)", "select case when a then b when c then d else e end, f(a, b, c) from t", "select 'a long string literal', col from t"]
     for k in ['indent_width', 'wrap_after', 'truncate_strings']:   # right_margin is not a documented option (its filter is a stub raising NotImplementedError)
         for v in INT_LIKE:
@@ -434,6 +434,14 @@ def keyof(f):
 
 def classify(f, kf):
     for k in kf:
+        if k['id'] == 'KF-C07-7' and ('OverflowError escaped from format()' in f['what'] or 'MemoryError escaped from format()' in f['what']):
+            # mechanism: indent_width is accepted for any int >= 1; ReindentFilter.nl() then builds char * (indent * width)
+            try:
+                o = eval(f['options'], {'inf': float('inf'), 'nan': float('nan'), 'Decimal': decimal.Decimal, 'Fraction': fractions.Fraction}) if isinstance(f.get('options'), str) else f.get('options')
+                if int(o.get('indent_width', 2)) >= 2 ** 31:
+                    return k['id']
+            except Exception:
+                pass
         # (the reindent/indent_columns ordering defect was repaired: fix e5826ed, KF-C07-F6 — a fixed entry suppresses nothing)
         if k.get('site') and f.get('site') == k['site']:
             # anchored in the Lean domain predicate: the finding is "the tree is outside FilterSafe.<stage>"; an exception on a tree
